@@ -249,6 +249,10 @@ def run(ck, facts, tier):
     ck.note("front-end entry points: " + ", ".join(r.split("::", 1)[1] for r in roots))
     belief.run(ck, R, facts, cg, roots, "front-end")
     rule_errors_as_values(ck, facts, cg)
+    # diagnostics carry token spans: tokens must tile the text on character boundaries (shared rule of C13)
+    from . import c13
+
+    c13.rule_token_extent(ck, facts)
     ck.not_decided("implicit panics (slice/index/overflow asserts) — censused in the evidence counts only")
     ck.not_decided("stack depth for deep nesting; the tokenizer's own termination (chumsky); termination of type inference (dynamic occurs check)")
     ck.not_decided("diagnostic spans lie inside the text on character boundaries (depends on chumsky spans)")
